@@ -228,6 +228,15 @@ def run_instances(sh, insts, nstates, seed):
         o0 = outputs(cpu0, undef, sse)
         fam = ('MMX-SSE:' + re.sub(r'(ps|pd|ss|sd)$', '#', inst['mn'])) if sse else re.sub(r'^(set|cmov|j)(' + '|'.join(c04.CC) + ')$', r'\1cc', inst['mn'])
         form = inst['form']
+        if inst['mn'] in ('bt', 'bts', 'btr', 'btc'):
+            form = '%s/%d' % (form, inst['size'])       # the 16-bit bit-string forms are known to be wrong; keep the 32-bit ones visible
+            br = inst['extra'].get('bitreg')
+            if br:
+                parent = {'ax': 'eax', 'cx': 'ecx', 'dx': 'edx', 'bx': 'ebx', 'bp': 'ebp', 'si': 'esi', 'di': 'edi'}.get(br, br)
+                v = base['regs'][parent] & ((1 << inst['size']) - 1)
+                if v >> (inst['size'] - 1):
+                    v -= 1 << inst['size']
+                form += '/bit-offset:%s' % ('negative' if v < 0 else ('inside-operand' if v < inst['size'] else 'beyond-operand'))
         witnessed = 0
         wit = {'text': inst['text'], 'code': g.hex(), 'regs': base['regs'], 'flags': base['flags'], 'hot': base['hot'].hex(), 'fp': [base['fp'][0].hex(), base['fp'][1].hex()] if base['fp'] else None}
         # --- read dependencies
@@ -264,7 +273,11 @@ def run_instances(sh, insts, nstates, seed):
                         else:
                             a0 = a1 = None
                         if o0[X] == a0 and o1[X] == a1:
-                            continue
+                            # untouched by the CPU. If the lifted semantics nevertheless assign this location, they have to
+                            # read its old value to preserve it (e.g. the flags of a shift whose masked count is 0)
+                            nm_ = loc.split(':', 1)[1]
+                            if not (loc.startswith(('reg:', 'flag:')) and nm_ in wid):
+                                continue
                     dep = True
                     break
             if not dep:
